@@ -1,6 +1,7 @@
 INIT Init
 NEXT Next
 CONSTANTS OFFBYONE = FALSE
+  NULLZERO = FALSE
   Objs = {1, 2, 3}
   MaxRevs = 2
   MaxPieces = 3
